@@ -178,60 +178,7 @@ Fixpoint loop (s : S) (l : list sexp) : result S :=
 End Loop.
 
 (* ---------------------------------------------------------------------------------------- *)
-(* names *)
-Record nmd := mknmd { nm_ident : str; nm_orig : option str }.
-Definition nm_name (n : nmd) : str := match nm_orig n with Some s => s | None => nm_ident n end.
-
-(* parse_rename: the items of (rename identifier "original") *)
-Definition parse_rename (l : list sexp) : result nmd :=
-  match l with
-  | [k; Atom a; Str s] =>
-    if is_kw "rename" k && ident_tok_ok a && str_tok_ok s then Ok (mknmd a (Some s)) else Err FeShape
-  | _ => Err FeShape
-  end.
-
-Definition parse_namedef (x : sexp) : result nmd :=
-  match x with
-  | Atom a => if ident_tok_ok a then Ok (mknmd a None) else Err FeShape
-  | Str _ => Err FeShape
-  | SList l => parse_rename l
-  end.
-
-(* dictionary_set of EDIF.identifier on an element created under the EDIF policy *)
-Definition legal (n : nmd) : result nmd :=
-  if NS.check_edif_identifier (nm_ident n) then Ok n else Err FeIllegalId.
-Definition parse_elemname (x : sexp) : result nmd := do n <- parse_namedef x; legal n.
-
-Definition parse_nameref (x : sexp) : result str :=
-  match x with
-  | Atom a => if ident_tok_ok a then (if has_wild a then Err FeUnsupported else Ok a) else Err FeShape
-  | _ => Err FeShape
-  end.
-
-(* NamespaceManager.add: EDIF.identifier (case-insensitive) first, then .NAME (exact) *)
-Definition ident_taken (i : str) (idents : list str) : bool := existsb (ident_eqb i) idents.
-Definition name_taken (n : str) (names : list str) : bool := existsb (str_eqb n) names.
-
-Definition place_strict (names idents : list str) (n : nmd) : result unit :=
-  if ident_taken (nm_ident n) idents then Err FeDupSibling
-  else if name_taken (nm_name n) names then Err FeDupSibling
-  else Ok tt.
-
-(* add_child / add_definition with the fallback name := identifier; result = the final name *)
-Definition place (names idents : list str) (n : nmd) : result str :=
-  if ident_taken (nm_ident n) idents then Err FeDupSibling
-  else if name_taken (nm_name n) names then
-    if str_eqb (nm_name n) (nm_ident n) then Err FeDupSibling
-    else if name_taken (nm_ident n) names then Err FeDupSibling
-    else Ok (nm_ident n)
-  else Ok (nm_name n).
-
-(* ---------------------------------------------------------------------------------------- *)
-(* comment, property, status *)
-Definition is_str_ok (x : sexp) : bool := match x with Str s => str_tok_ok s | _ => false end.
-Definition chk_comment (args : list sexp) : result unit :=
-  if forallb is_str_ok args then Ok tt else Err FeShape.
-
+(* EDIF strings *)
 (* parse_string: the escapes of a string VALUE are decoded by
      re.sub(r"%[ \t]*((?:[-+]?\d+[ \t]+)*[-+]?\d+)[ \t]*%", <chr of every code>, token)
    Between two percent signs of a match there is no percent sign, so a match that starts at a percent
@@ -294,6 +241,64 @@ Fixpoint unesc (s : str) (pend : option str) : result str :=
          end
   end.
 Definition unescape_value (s : str) : result str := unesc s None.
+
+(* ---------------------------------------------------------------------------------------- *)
+(* names *)
+Record nmd := mknmd { nm_ident : str; nm_orig : option str }.
+Definition nm_name (n : nmd) : str := match nm_orig n with Some s => s | None => nm_ident n end.
+
+(* parse_rename: the items of (rename identifier "original"); the original name is an EDIF string
+   like a property value: parse_escaped_stringToken decodes its %n n ..% groups *)
+Definition parse_rename (l : list sexp) : result nmd :=
+  match l with
+  | [k; Atom a; Str s] =>
+    if is_kw "rename" k && ident_tok_ok a && str_tok_ok s
+    then match unescape_value s with Ok v => Ok (mknmd a (Some v)) | Err e => Err e end
+    else Err FeShape
+  | _ => Err FeShape
+  end.
+
+Definition parse_namedef (x : sexp) : result nmd :=
+  match x with
+  | Atom a => if ident_tok_ok a then Ok (mknmd a None) else Err FeShape
+  | Str _ => Err FeShape
+  | SList l => parse_rename l
+  end.
+
+(* dictionary_set of EDIF.identifier on an element created under the EDIF policy *)
+Definition legal (n : nmd) : result nmd :=
+  if NS.check_edif_identifier (nm_ident n) then Ok n else Err FeIllegalId.
+Definition parse_elemname (x : sexp) : result nmd := do n <- parse_namedef x; legal n.
+
+Definition parse_nameref (x : sexp) : result str :=
+  match x with
+  | Atom a => if ident_tok_ok a then (if has_wild a then Err FeUnsupported else Ok a) else Err FeShape
+  | _ => Err FeShape
+  end.
+
+(* NamespaceManager.add: EDIF.identifier (case-insensitive) first, then .NAME (exact) *)
+Definition ident_taken (i : str) (idents : list str) : bool := existsb (ident_eqb i) idents.
+Definition name_taken (n : str) (names : list str) : bool := existsb (str_eqb n) names.
+
+Definition place_strict (names idents : list str) (n : nmd) : result unit :=
+  if ident_taken (nm_ident n) idents then Err FeDupSibling
+  else if name_taken (nm_name n) names then Err FeDupSibling
+  else Ok tt.
+
+(* add_child / add_definition with the fallback name := identifier; result = the final name *)
+Definition place (names idents : list str) (n : nmd) : result str :=
+  if ident_taken (nm_ident n) idents then Err FeDupSibling
+  else if name_taken (nm_name n) names then
+    if str_eqb (nm_name n) (nm_ident n) then Err FeDupSibling
+    else if name_taken (nm_ident n) names then Err FeDupSibling
+    else Ok (nm_ident n)
+  else Ok (nm_name n).
+
+(* ---------------------------------------------------------------------------------------- *)
+(* comment, property, status *)
+Definition is_str_ok (x : sexp) : bool := match x with Str s => str_tok_ok s | _ => false end.
+Definition chk_comment (args : list sexp) : result unit :=
+  if forallb is_str_ok args then Ok tt else Err FeShape.
 
 Definition parse_typed (x : sexp) : result pval :=
   match x with
